@@ -3,25 +3,25 @@ package main
 // C16: stop groups, frontend life-cycles and reload against the real code.
 
 import (
-	"github.com/chihaya/chihaya/pkg/metrics"
-	"crypto/rsa"
-	"github.com/chihaya/chihaya/pkg/timecache"
-	"crypto/tls"
-	"path/filepath"
-	"os"
-	"math/big"
-	"encoding/pem"
-	"crypto/x509/pkix"
-	"crypto/x509"
-	crand "crypto/rand"
-	"crypto/elliptic"
-	"crypto/ecdsa"
 	"context"
+	"crypto/ecdsa"
+	"crypto/elliptic"
+	crand "crypto/rand"
+	"crypto/rsa"
+	"crypto/tls"
+	"crypto/x509"
+	"crypto/x509/pkix"
 	"encoding/binary"
+	"encoding/pem"
 	"errors"
 	"fmt"
+	"github.com/chihaya/chihaya/pkg/metrics"
+	"github.com/chihaya/chihaya/pkg/timecache"
+	"math/big"
 	"net"
 	"net/http"
+	"os"
+	"path/filepath"
 	"runtime"
 	"strconv"
 	"strings"
